@@ -578,6 +578,14 @@ func fixtureByID(id string) (stick.Value, error) {
 			n, _ := strconv.ParseUint(arg(2), 10, 64)
 			return uintptr(n), nil
 		}
+	case "csafedeep":
+		// an application's own SafeValue wrapper, nested arg(1) times around "abc"
+		n, _ := strconv.Atoi(arg(1))
+		var in stick.Value = "abc"
+		for i := 0; i < n; i++ {
+			in = customSafe{in}
+		}
+		return in, nil
 	case "nilptrsafe":
 		return (*customSafe)(nil), nil
 	case "chan":
